@@ -551,10 +551,26 @@ fn c12_outcome(rng: &mut Rng, kind: &str, which: usize, tid: u16, unit: u8) -> S
         3 => frame(kind, tid, unit, &[0x04, 0x02, 0x00, 0x01]),
         // undecodable frame
         4 => {
-            if kind == "tcp" && rng.bool() {
+            if kind == "tcp" && rng.chance(1, 3) {
                 let mut f = frame(kind, tid, unit, &good_pdu);
                 f[3] = 0x09; // protocol id
                 f
+            } else if kind == "tcp" && rng.bool() {
+                // well-framed, but the PDU breaks off early or is damaged in some other way: every
+                // error class of the PDU decoder (a PDU that ends too soon is reported differently
+                // from one with a wrong field)
+                let short: &[&[u8]] = &[&[0x83], &[0x11, 0x05, 1, 2, 3], &[0x16, 0x00, 0x01, 0x00], &[0x03, 0x04, 1, 2], &[0x03], &[0x10, 0x00], &[]];
+                let mut p: Vec<u8> = rng.pick(short).to_vec();
+                if rng.bool() {
+                    for _ in 0..20 {
+                        let cand = super::universal::damaged_pdu(rng, &good_pdu);
+                        if matches!(spec::classify_response(&cand), Verdict::Reject) {
+                            p = cand;
+                            break;
+                        }
+                    }
+                }
+                frame(kind, tid, unit, &p)
             } else {
                 // well-framed, but the PDU is malformed (bad coil value)
                 frame(kind, tid, unit, &[0x05, 0x00, 0x01, 0x12, 0x34])
@@ -849,7 +865,12 @@ pub fn gen_c13_second_send(out: &mut Out, rng: &mut Rng, thorough: bool) {
     }
 }
 
-fn mon_c13_second_send(out: &mut Out, l: &str, r: &str) {
+pub fn is_second_send_line(l: &str) -> bool {
+    let (head, ops) = ops_of(l);
+    head[0] == "cli" && ops.len() == 2 && ops.iter().all(|o| o.name == "call") && l.ends_with(" r=e") && l.contains("| call RHR:0102:0001 w=")
+}
+
+pub fn mon_c13_second_send(out: &mut Out, l: &str, r: &str) {
     let (head, ops) = ops_of(l);
     let kind = head[1];
     let res = parts(r);
@@ -874,7 +895,7 @@ fn mon_c13_second_send(out: &mut Out, l: &str, r: &str) {
 
 pub fn mon_c13(out: &mut Out, l: &str, r: &str) {
     let (head, ops) = ops_of(l);
-    if head[0] == "cli" && ops.len() == 2 && ops.iter().all(|o| o.name == "call") && l.ends_with(" r=e") && l.contains("| call RHR:0102:0001 w=") {
+    if is_second_send_line(l) {
         mon_c13_second_send(out, l, r);
         return;
     }
